@@ -46,18 +46,18 @@ PROPS = {
         explanation='parse_header (verbatim, incl. the real decode loop): for EVERY entry of every accepted header the stored data equals an independent decoding of the store bytes written as spec functions (strings up to the first NUL, integer arrays big-endian at full length, string / i18n arrays item by item with terminators skipped, binary verbatim) - postcondition decoded(entry, store), unbounded; typed getters return the first entry with the tag iff its type matches, else the documented error (Kani, 3 entries); the 18 scalar accessors of PackageMetadata (name, version, release, epoch, arch, vendor, url, vcs, license, packager, build host/time, cookie, source rpm, summary, description, group, installed size) return what the getter gives for the rpm tag number they are named after; get_installed_size prefers LONGSIZE then SIZE.',
     ),
     'C07': dict(
-        level='proof', verus=['c07_payload', 'c07_iter'],
+        level='proof', verus=['c07_payload', 'c07_iter', 'c09_blocks'],
         trusted_base=[A_TOOLS, A_EXTRACT, 'A-IO std Read / Write / Take / io::copy contracts (prelude/read.rs, io.rs)', 'A-64BIT: usize is 64 bits (global size_of usize == 8)', 'A-SLICE-LEN: slices never exceed isize::MAX bytes'],
         assumptions=['PARTIAL: decided are the cpio framing arithmetic and size accounting of src/rpm/payload.rs (pad, Reader::read, Reader::finish, Writer::write / try_write_header / do_finish and their composition). NOT covered: compressors / decompressors (FFI), hex header field formatting and parsing (format!, from_str_radix), the path matching inside Reader::file_entry_index (&str code), builder file ordering, digest equality of content',
                      'the header produced by Builder::into_header being a multiple of 4 bytes is a precondition of the composition lemma, not proved (format! based)'],
         explanation='Verbatim bodies: FileIterator::next pairs the content with the header file entry the archive entry NAMES (index returned by Reader::file_entry_index), never by position; Reader::new bounds the name buffer, bounds-checks the stripped file index and sizes the entry from the cpio header resp. the header file entry; pad(len) is (4 - len mod 4) mod 4 NUL bytes; Reader::read never hands out more than file_size - bytes_read, accounts exactly what it handed out and cannot overflow; Reader::finish consumes the rest of the entry plus its padding; Writer::write accepts data only while it fits the announced size and emits the header first; header + full body + finish yields hdr ++ body ++ NUL padding with 4-byte alignment.',
     ),
     'C08': dict(
-        level='proof', verus=['c10_sign', 'c08_sigbuild', 'c14_writers'],
+        level='proof', verus=['c10_sign', 'c08_sigbuild', 'c08_blocks', 'c14_writers'],
         trusted_base=[A_TOOLS, A_EXTRACT, 'A-HASH: sha2 / hex compute SHA-256 / lower-case hex (uninterpreted)',
                       'A-LEAF-LINK: Header::write contract proved in unit c14_writers',
                       'SignatureHeaderBuilder::build is proved on its verbatim body (unit c08_sigbuild) against the from_entries contract of unit c09_from_entries; A-SIZE: the size precondition of from_entries (< 2 GiB of data) is assumed for signature headers; A-PGP: packet parser / base64 stand-ins'],
-        assumptions=['NOT covered: payload digest, alternate (uncompressed) payload digest and per-file digests are computed inside prepare_data / add_data (not under contract); what is proved is the hashing writer they are computed through and the header digest on build / sign / clear'],
+        assumptions=['prepare_data as a whole is out of reach (750 lines, compressor FFI, paths, clock); the payload digest / algorithm / alternate digest are covered by a BLOCK contract on the verbatim statement range that computes and records them (b1_payload_digests: proved for every entry state of its free variables); NOT covered: per-file digests (add_data), and that the hashing writer really wraps the compressor fed with the archive (the surrounding statements of prepare_data)'],
         explanation='Sha256Writer::write (verbatim, any inner sink): the hasher absorbs exactly the bytes the inner writer accepted (Ok(n): buf[..n]; Err: nothing) and into_digest is sha256 of them; PackageBuilder::build, Package::sign_with_timestamp, Package::clear_signatures: the SHA-256 stored in the signature header is hex(sha256(ser(header))) of the header that ends up in the package.',
     ),
     'C10': dict(
@@ -129,8 +129,27 @@ FIX_COMMITS = [
     '7e5434c fix: cpio Writer compares the written size in u64',
     "2a345c2 fix: reject compression levels outside of the encoders' documented ranges",
     '7cf49d9 fix: pair archive entries with the header file entry they name',
+    '797fe0d fix: pad file data in the large-file (stripped cpio) branch of the builder',
+    '290c9e0 fix: emit the packager and group given to the builder',
 ]
 
+PROPS['C06'] = dict(
+    level='proof', verus=['c06_blocks', 'c05_accessors', 'c09_from_entries'],
+    trusted_base=[A_TOOLS, A_EXTRACT, 'BLOCK contracts on verbatim statement ranges of PackageBuilder::prepare_data (the function as a whole is not verified); the transport between the emitted records and the accessors is covered by other checks: from_entries keeps every record (unit c09_from_entries), write/parse reproduce and decode it (C01/C05), typed getters find it (K:k_getters_*)'],
+    assumptions=['claimed for SCALAR metadata only: name, epoch, version, release, arch, licence, summary, description, group, vendor, packager, URL, VCS, cookie - each is emitted under its rpm tag with its type (blocks b6, b7) and the accessor of that name reads exactly that tag and type (unit c05_accessors). NOT covered: build host block, scriptlets (the verify script is never emitted: outside reach, DESIGN section 6), dependencies, changelog, per-file data, uniqueness of the emitted tags across blocks, the builder setters themselves',
+                 'R12: `opt.unwrap_or_else(|| s.clone())` is rewritten to a helper with the same value'],
+    explanation='For every builder state: the record list assembled by prepare_data contains RPMTAG_NAME/VERSION/RELEASE/LICENSE/ARCH as strings, EPOCH as int32, SUMMARY/DESCRIPTION/GROUP as single-locale i18n strings (description defaulting to the summary), and VENDOR/PACKAGER/URL/VCS/COOKIE whenever set, each with exactly the value given; and get_name ... get_cookie read exactly those tags with those types.',
+    technique='contract-based deductive verification (Verus): block contracts on verbatim statement ranges + function contracts on the accessors',
+)
+PROPS['C11'] = dict(
+    level='proof', verus=['c11_clamp'],
+    trusted_base=[A_TOOLS, A_EXTRACT, 'BLOCK contracts: the three clamping statements are verbatim statement ranges of prepare_data / build_and_sign wrapped into synthetic functions over their free variables (the clock reading `now` is a parameter); the enclosing functions are not verified'],
+    assumptions=['claimed for the SECOND sentence only ("no timestamp - build time, file modification times, signature creation time - is later than the source date"). The FIRST sentence (byte-identical packages across runs and processes: HashSet iteration order, clock, TZ) is relational over process environments and is NOT decided',
+                 'R11: `<` on Timestamp is the order of the seconds (derived PartialOrd on the tuple struct)',
+                 'that the clamped values are the ones written to the header / handed to the signer is glue outside the blocks'],
+    explanation='For every clock reading and every file mtime: the recorded file mtime, RPMTAG_BUILDTIME and the signature timestamp are min(source date, value) when a source date is set (hence never later than it) and the value itself otherwise.',
+    technique='contract-based deductive verification (Verus) of block contracts on verbatim statement ranges',
+)
 PROPS['C13'] = dict(
     level='proof', verus=['c13_evr'],
     trusted_base=[A_TOOLS, A_EXTRACT, 'compare_version_string (rpmvercmp on two strings) is an UNINTERPRETED function here: its agreement with rpm is NOT decided (first sentence of C13 not claimed: &str pattern-API code, no Verus specifications, Kani did not terminate on 2-byte strings)'],
@@ -140,10 +159,10 @@ PROPS['C13'] = dict(
     technique='contract-based deductive verification (Verus) of the EVR/NEVRA comparison structure over an uninterpreted string comparison',
 )
 PROPS['C09'] = dict(
-    level='proof', verus=['c09_from_entries', 'c14_writers', 'c07_payload', 'c16_offsets', 'c17_compressor'],
+    level='proof', verus=['c09_from_entries', 'c09_blocks', 'c14_writers', 'c07_payload', 'c16_offsets', 'c17_compressor'],
     trusted_base=[A_TOOLS, A_EXTRACT, 'A-LEAF-LINK: IndexData::append contract = K:k_append_* (bounded) on the real function; write_index contract proved in unit c14_writers',
                   'assumed std specification of slice::sort_by (permutation, no earlier element compares Greater than a later one)', 'A-UTF8: String::as_bytes is uninterpreted'],
-    assumptions=['PARTIAL: decided are the header layout produced by Header::from_entries / create_region_tag (region tag + trailer, ascending tags, aligned in-range non-overlapping offsets, store = aligned concatenation), the 8-byte signature padding, the cpio 4-byte alignment arithmetic and the lead defaults. NOT covered (inside PackageBuilder::prepare_data): distinctness of emitted tags, non-zero counts, rpmlib() features per feature used, payload order = header order, compressor named = compressor used',
+    assumptions=['PARTIAL: decided are the header layout produced by Header::from_entries / create_region_tag (region tag + trailer, ascending tags, aligned in-range non-overlapping offsets, store = aligned concatenation), the 8-byte signature padding, the cpio 4-byte alignment arithmetic and the lead defaults. BLOCK contracts on verbatim statement ranges of PackageBuilder::prepare_data (the function as a whole is out of reach) cover the rpmlib() requirements per feature used (b2), the accumulation of the file-capabilities flag (b3) and the large-file entry framing (b4); Compressor::try_from builds the variant requested (c17). NOT covered: distinctness of emitted tags, non-zero counts, payload order = header order, how the flags for zstd / large files are derived',
                  'precondition of from_entries: the laid-out data fits i32 offsets (< 2 GiB) and fewer than 2^26 records - headers beyond that are not representable in the format'],
     explanation='Header::from_entries (verbatim, closure contract spliced on the comparator, `for record in &mut` desugared to an index loop): the result is wf, entry 0 is the region tag (BIN, count 16) pointing at a 16-byte trailer equal to ser_entry(region, 7, -16*(n+1), 16), the other entries are the input records sorted by ascending tag, each at the type-aligned end of its predecessors, and the store is exactly the aligned concatenation of the encoded data followed by the trailer; unbounded in record count and data size.',
 )
@@ -157,8 +176,6 @@ PROPS['C20'] = dict(
 )
 
 NOT_APPLICABLE = {
-    'C06': 'the claim lives in PackageBuilder::prepare_data/add_data (750 lines over compressor FFI, clock, HashSet, BTreeMap, Path, format!): Verus cannot take the text and CBMC does not finish even on Header::parse alone; the reachable header-codec inverse is claimed under C05/C09',
-    'C11': 'relational property over process environments (per-process RandomState seeds, wall clock, TZ) of prepare_data; neither verifier models a second run or HashSet seeding',
     'C12': 'about file-system effects (create_dir_all, File::create following symlinks, symlink): both verifiers treat std::fs as unsupported foreign calls and have no file-system model',
     'C19': 'capability grammar is &str code (split_whitespace, find, chars, to_uppercase): same two obstacles as C13',
 }
